@@ -32,7 +32,7 @@ func init() {
 	core.Register(&core.Spec{
 		ID:    "C16",
 		Level: "exploration",
-		Rule: "seeded models of 1..2 services x 5 environment keys (+2 helper names) x 4 label keys; per key the set of defining layers is drawn from {project environment, env_file 1..3} x {absent from `environment`, with value, with empty value, without value} (all 64 combinations are forced on one key by the case counter) and {label_file 1..3} x {absent from `labels`, value, empty}; distinct value per (key, layer); file values may reference ${NAME} with NAME defined in exactly one of {earlier file, project environment, earlier line}; env_file entries in short/long/optional syntax, present or missing; `environment`/`labels` as mapping or list; each model is loaded by the loader, by the loader with WithDiscardEnvFiles, and by the loader with SkipResolveEnvironment (with and without SkipNormalization) followed by WithServicesEnvironmentResolved(false|true). " +
+		Rule: "seeded models of 1..2 services x 5 environment keys (+2 helper names) x 4 label keys; per key the set of defining layers is drawn from {project environment, env_file 1..3} x {absent from `environment`, with value, with empty value, without value} (all 64 combinations are forced on one key by the case counter) and {label_file 1..3} x {absent from `labels`, value, empty}; distinct value per (key, layer); file values may reference ${NAME}, ${NAME-default} or ${NAME:-default} with NAME defined in exactly one of {earlier file, project environment, earlier line} (with a default, also nowhere), helper names may be defined with an empty value in a file (defined for `-`, replaced for `:-`); env_file entries in short/long/optional syntax, present or missing; `environment`/`labels` as mapping or list; each model is loaded by the loader, by the loader with WithDiscardEnvFiles, and by the loader with SkipResolveEnvironment (with and without SkipNormalization) followed by WithServicesEnvironmentResolved(false|true). " +
 			"A case is non-trivial when some key of some service is defined in at least two layers (or the case carries a missing file) and every execution reached a verdict; distinct = distinct case inputs.",
 		Assumptions: []string{
 			"the 60-line fold in internal/ref/envlayers.go is a faithful reading of the statement",
@@ -166,30 +166,60 @@ func drawLines(r *rng, keys []string, layer string, earlier []ref.LayerFile, pro
 	local := map[string]string{}
 	var lines []ref.LayerLine
 	var quotes []string
+	isHelper := func(k string) bool {
+		for _, h := range helpers {
+			if h == k {
+				return true
+			}
+		}
+		return false
+	}
 	for _, k := range keys {
 		l := ref.LayerLine{Key: k, Pieces: []ref.LayerPiece{{Lit: val(k, layer)}}}
 		q := ""
-		if r.p(1, 3) {
+		if isHelper(k) && r.p(1, 3) {
+			// a name defined with an empty value: defined, for ${NAME-x}
+			l.Pieces = []ref.LayerPiece{{Lit: ""}}
+			*feats = append(*feats, "empty-file-value")
+			if r.p(1, 2) {
+				q = []string{"\"", "'"}[r.n(2)]
+			}
+		} else if r.p(1, 3) {
+			op := []string{"", "", "-", ":-"}[r.n(4)]
 			var cands []string
 			for _, nme := range names {
 				if nme == k {
 					continue
 				}
-				if _, n := ref.LayerLookup(nme, envSoFar, project, local); n == 1 {
+				_, n := ref.LayerLookup(nme, envSoFar, project, local)
+				// with a default, a name defined nowhere may be referenced too
+				// (env files only: a label file's view of the project
+				// environment is not stated)
+				if n == 1 || (n == 0 && op != "" && project != nil) {
 					cands = append(cands, nme)
 				}
 			}
 			if len(cands) > 0 {
 				nme := cands[r.n(len(cands))]
+				v, n := ref.LayerLookup(nme, envSoFar, project, local)
 				switch {
+				case n == 0:
+					*feats = append(*feats, "ref-undefined"+op)
 				case has(envSoFar, nme):
-					*feats = append(*feats, "ref-earlier-file")
+					*feats = append(*feats, "ref-earlier-file"+op)
 				case has(project, nme):
-					*feats = append(*feats, "ref-project")
+					*feats = append(*feats, "ref-project"+op)
 				default:
-					*feats = append(*feats, "ref-earlier-line")
+					*feats = append(*feats, "ref-earlier-line"+op)
 				}
-				l.Pieces = append(l.Pieces, ref.LayerPiece{Lit: "/"}, ref.LayerPiece{Ref: nme}, ref.LayerPiece{Lit: "/"})
+				if n == 1 && v == "" {
+					*feats = append(*feats, "ref-empty-valued"+op)
+				}
+				piece := ref.LayerPiece{Ref: nme, Op: op}
+				if op != "" {
+					piece.Def = "dflt" + k
+				}
+				l.Pieces = append(l.Pieces, ref.LayerPiece{Lit: "/"}, piece, ref.LayerPiece{Lit: "/"})
 				if r.p(1, 2) {
 					q = "\""
 				}
@@ -203,8 +233,7 @@ func drawLines(r *rng, keys []string, layer string, earlier []ref.LayerFile, pro
 			if p.Ref == "" {
 				sb.WriteString(p.Lit)
 			} else {
-				v, _ := ref.LayerLookup(p.Ref, envSoFar, project, local)
-				sb.WriteString(v)
+				sb.WriteString(ref.LayerExpand(p, envSoFar, project, local))
 			}
 		}
 		local[k] = sb.String()
@@ -460,7 +489,7 @@ func renderFile(f fileSpec) string {
 			if p.Ref == "" {
 				sb.WriteString(p.Lit)
 			} else {
-				sb.WriteString("${" + p.Ref + "}")
+				sb.WriteString("${" + p.Ref + p.Op + p.Def + "}")
 			}
 		}
 		sb.WriteString(q + "\n")
